@@ -536,6 +536,48 @@ fn C17_remote_static() {
     }
     assert_eq!(bad, 0);
 }
+/// seeded change C17-11: a key given to the Builder for a pattern that also TRANSMITS the peer's static key must be replaced
+/// by the transmitted (authenticated) key as soon as the message carrying it has been read - in deferred patterns no DH of the
+/// same message notices a stale key, so only get_remote_static() shows it
+#[test]
+fn C17_a_transmitted_static_key_replaces_a_key_given_to_the_builder() {
+    let mut bad = 0;
+    for name in all_names(&with_extensions(&["25519_ChaChaPoly_SHA256"])) {
+        let c = cfg(&name);
+        let e = table_entry(&base_pattern(&name));
+        let stale = keypair_for(&name, 9).1;
+        for pinned_is_init in [true, false] {
+            // the pinning party's peer must transmit s (and not pre-share it)
+            let peer_pre = if pinned_is_init { e.2 } else { e.1 };
+            let carrier = e.3.iter().enumerate().position(|(k, m)| (k % 2 == 0) != pinned_is_init && m.contains(&"s"));
+            let carrier = match carrier { Some(k) if !peer_pre.contains(&"s") => k, _ => continue };
+            let build_pinned = || -> Result<HandshakeState, Error> {
+                let params: NoiseParams = c.name.parse()?;
+                let (me, eph) = if pinned_is_init { (&c.si, &c.ei) } else { (&c.sr, &c.er) };
+                let mut b = Builder::new(params).prologue(&c.prologue)?.local_private_key(&me.0)?.fixed_ephemeral_key_for_testing_only(eph).remote_public_key(&stale)?;
+                for p in psk_positions(&c.name) { b = b.psk(p, &c.psk)?; }
+                if pinned_is_init { b.build_initiator() } else { b.build_responder() }
+            };
+            let (mut i, mut r) = match (if pinned_is_init { build_pinned() } else { build(&c, true, None) }, if pinned_is_init { build(&c, false, None) } else { build_pinned() }) { (Ok(a), Ok(b)) => (a, b), _ => continue };
+            let truth = if pinned_is_init { c.sr.1.clone() } else { c.si.1.clone() };
+            let mut buf = vec![0u8; 70000]; let mut p = vec![0u8; 70000];
+            for k in 0..=carrier {
+                let (w, rd) = if k % 2 == 0 { (&mut i, &mut r) } else { (&mut r, &mut i) };
+                let n = match w.write_message(b"p", &mut buf) { Ok(n) => n, Err(_) => break };
+                if rd.read_message(&buf[..n], &mut p).is_err() { break; }
+                if k == carrier {
+                    let hs = if pinned_is_init { &i } else { &r };
+                    if hs.get_remote_static() != Some(&truth[..]) {
+                        finding("C17", format!("{}: the {} was built with remote_public_key({}); message {} carries the peer's static key {} and was read successfully, but get_remote_static() is {:?}", name, if pinned_is_init { "initiator" } else { "responder" }, hexs(&stale), k, hexs(&truth), hs.get_remote_static().map(hexs))); bad += 1;
+                    }
+                }
+            }
+            if bad >= 4 { break; }
+        }
+        if bad >= 4 { break; }
+    }
+    assert_eq!(bad, 0);
+}
 #[test]
 fn C12_builder_prerequisites() {
     let mut bad = 0;
@@ -746,7 +788,12 @@ fn C05_C09_stateful_delivery_and_nonces() {
                 let _ = rcv.read_message(&msgs[expect_next.min(4) as usize], &mut p[..3]); // genuine next message, payload buffer too small
                 let _ = rcv.read_message(&msgs[m][..10], &mut p);                       // truncated
                 let mut flipped = msgs[m].clone(); flipped[3] ^= 1; let _ = rcv.read_message(&flipped, &mut p);
-                if rcv.receiving_nonce() != expect_next { finding("C05", format!("{}: rejected deliveries moved the receiving nonce to {} (expected {}) at step {}", name, rcv.receiving_nonce(), expect_next, step)); bad += 1; break; }
+                if rcv.receiving_nonce() != expect_next {
+                    finding("C05", format!("{}: rejected deliveries moved the receiving nonce to {} (expected {}) at step {}", name, rcv.receiving_nonce(), expect_next, step));
+                    // the same observation breaks C09 as stated: the receiving nonce moves only on a successful read (seeded change C09-11)
+                    finding("C09", format!("{}: the receiving nonce moved from {} to {} although no read succeeded in between (garbage, undersized payload buffer, truncated and bit-flipped deliveries were all rejected) at step {}", name, expect_next, rcv.receiving_nonce(), step));
+                    bad += 1; break;
+                }
                 let res = rcv.read_message(&msgs[m], &mut p);
                 if (m as u64 == expect_next) != res.is_ok() { finding("C05", format!("{}: receiver expecting message {} got message {} and returned {:?}", name, expect_next, m, res)); bad += 1; break; }
                 if res.is_ok() { if &p[..9] != &[m as u8; 9] { finding("C04", format!("{}: wrong payload delivered", name)); bad += 1; } expect_next += 1; }
